@@ -176,9 +176,15 @@ func (c *MultiConn) Send(topic lib.Topic, bz []byte) (ok bool) {
 		c.p2p.metrics.MessageSize.Observe(float64(len(bz)))
 		c.p2p.metrics.PacketsPerMessage.Observe(float64(len(packets)))
 	}
-	ok = stream.queueSends(packets, startTime, c.p2p.metrics)
+	var partial bool
+	ok, partial = stream.queueSends(packets, startTime, c.p2p.metrics)
 	if !ok {
 		c.log.Errorf("Packet(ID:%s) packet failed in queue for: %s", lib.Topic_name[int32(topic)], lib.BytesToTruncatedString(c.Address.PublicKey))
+		// a prefix of the message without its EOF packet is already queued: the receiver would append the
+		// next message of this stream to it and deliver a message nobody sent, so the connection must end
+		if partial {
+			c.Error(ErrFailedWrite(io.ErrShortWrite))
+		}
 	}
 	return
 }
@@ -497,17 +503,18 @@ type Stream struct {
 }
 
 // queueSends() schedules the packets to be sent ensuring coordination with the mutex
-func (s *Stream) queueSends(packets []*Packet, sendStart time.Time, metrics *lib.Metrics) bool {
+func (s *Stream) queueSends(packets []*Packet, sendStart time.Time, metrics *lib.Metrics) (ok, partial bool) {
 	defer lib.TimeTrack(s.logger, time.Now(), time.Second)
 	s.mu.Lock()
 	defer s.mu.Unlock()
-	for _, packet := range packets {
+	for i, packet := range packets {
 		ok := s.queueSend(packet, sendStart, metrics)
 		if !ok {
-			return false
+			// partial: at least one packet of this message is already in the queue
+			return false, i > 0
 		}
 	}
-	return true
+	return true, false
 }
 
 // queueSend() schedules the packet to be sent
